@@ -67,6 +67,7 @@ def run(ctx, scratch):
                     ps = perms4[n] if not quick else rng.sample(perms4[n], 4)
                     for p in ps:
                         s2, o2 = cases.permute_case(spec, opts, list(p))
+                        s2 = _as_indexed(s2, sum(p) + len(ps))
                         _one(ctx, impl, name, spec, opts, s2, o2, list(p), 'exh_%d' % n)
         # graphs on 3 nodes WITH self-loops (every subset of loops), all / sampled permutations
         loopy = []
@@ -81,6 +82,7 @@ def run(ctx, scratch):
                 opts = cases.make_opts(rng, desc[name], 3, 3, False)
                 for p in (perms4[3] if not quick else rng.sample(perms4[3], 3)):
                     s2, o2 = cases.permute_case(spec, opts, list(p))
+                    s2 = _as_indexed(s2, p[0])
                     _one(ctx, impl, name, spec, opts, s2, o2, list(p), 'exh_3_loops')
         # dense graphs on 6-8 nodes x many numberings (nested neighbourhoods: clique listing, cores, triangles)
         dense_kernels = [n for n in exact if n.startswith('count_') or n == 'get_core_decomposition']
@@ -95,6 +97,7 @@ def run(ctx, scratch):
                 for _k in range(12 if quick else 40):
                     p = gen.random_perm(rng, n)
                     s2, o2 = cases.permute_case(spec, opts, p)
+                    s2 = _as_indexed(s2, _k)
                     _one(ctx, impl, name, spec, opts, s2, o2, p, 'dense_%d' % n)
         # Weisfeiler-Lehman: colouring = colour refinement; never "non-isomorphic" for a renumbered copy
         for k in range(150 if quick else 1500):
@@ -142,6 +145,18 @@ def run(ctx, scratch):
     ctx.assumptions = ['ARPACK-backed vectors are compared up to sign and not at all when the spectrum has a near-tie (margin guard)',
                        'iterative float32 solvers (diteration, push) are compared at 2e-3: their sweep order depends on the numbering',
                        'classifier labels may differ where the two best class probabilities are tied within 1e-6']
+
+
+def _as_indexed(s2, k):
+    """The renumbered copy as the usual idiom A[p][:, p] leaves it: a CSR matrix whose rows hold their column indices in an
+    arbitrary order (every second case; reversed rows every fourth).  Only used for the integer-exact kernels."""
+    if s2.get('fmt', 'csr') != 'csr' or k % 2 == 0:
+        return s2
+    unit = all(len(e) < 3 or e[2] == 1 for e in s2['coo'])
+    if k % 4 == 1:
+        # adjacency[p][:, p] of a library graph: bool entries (the loaders return bool matrices), arbitrary index order
+        return dict(s2, fmt='csr_shuffled', dtype='bool' if unit else s2.get('dtype', 'int'))
+    return dict(s2, fmt='csr_unsorted')
 
 
 def _one(ctx, impl, name, spec, opts, s2, o2, perm, fam):
